@@ -87,4 +87,19 @@ static int lst_child(int mode, const seq_t* s)
     listener_main(mode ? 2 : 3, mode ? argv_u : argv_r);
     return EX_HARNESS;
 }
+#ifndef LST_FUZZ
 int main(void) { return lst_driver_main(); }
+#else
+static int fuzz_pair[2] = { -1, -1 };
+static void lst_fuzz_one(int mode, const uint8_t* d, size_t n)
+{
+    if (fuzz_pair[0] < 0) { if (make_pair(fuzz_pair) < 0) abort(); g_feed_fd = fuzz_pair[0]; g_listen_fd = fuzz_pair[1]; }
+    fuzz_d = d; fuzz_n = n; fuzz_phase = 0;
+    if (setjmp(fuzz_jb) == 0) {
+        char* argv_u[] = { "acf-vss-listener", "-u", 0 };
+        char* argv_r[] = { "acf-vss-listener", "lo", "aa:bb:cc:dd:ee:ff", 0 };
+        use_udp = 0;
+        listener_main(mode ? 2 : 3, mode ? argv_u : argv_r);
+    }
+}
+#endif
